@@ -52,18 +52,22 @@ class Namespace:
              /a/f
              /root/           <- R (the confined root)
                   f, nx.ext
-                  a/f, a/index.html, a/a/f
+                  a/f, a/index.html, a/a/f, a/e/ (empty)
              /rootbar/        <- sibling sharing R's name as a prefix
                   f, nx.ext, a/f
     Every file's content names its own location, so a served body identifies the file it came from.
     """
 
-    DIRS = ["P", "P/a", "P/root", "P/root/a", "P/root/a/a", "P/rootbar", "P/rootbar/a"]
+    DIRS = ["P", "P/a", "P/root", "P/root/a", "P/root/a/a", "P/root/a/e", "P/rootbar", "P/rootbar/a"]
     FILES = ["P/f", "P/nx.ext", "P/a/f", "P/root/f", "P/root/nx.ext", "P/root/a/f", "P/root/a/index.html",
              "P/root/a/a/f", "P/rootbar/f", "P/rootbar/nx.ext", "P/rootbar/a/f"]
 
+    DEPTH = 12      # G sits this many directories below `base`: no ".." chain a driver generates (<= 8 + the
+                    # depth of the working directory) can climb out of `base`, even if the code under test is broken
+
     def __init__(self, base):
-        self.g = os.path.join(os.path.realpath(base), "G")
+        self.base = os.path.realpath(base)
+        self.g = os.path.join(self.base, *(["_"] * self.DEPTH), "G")
         self.parent = os.path.join(self.g, "P")
         self.root = os.path.join(self.parent, ROOTNAME)
         self.sibling = os.path.join(self.parent, SIBNAME)
@@ -86,7 +90,7 @@ class Namespace:
         was = AUDIT.enabled
         AUDIT.enabled = False
         try:
-            shutil.rmtree(self.g, ignore_errors=True)
+            shutil.rmtree(self.base, ignore_errors=True)
             os.makedirs(self.g)
             for d in self.DIRS:
                 os.mkdir(os.path.join(self.g, d))
